@@ -450,6 +450,12 @@ class World:
         self.note(f"{ss.name}: {shown} -> {r.status}" + (f" [{r.tagged.code}]" if r.tagged is not None and r.tagged.code else ""))
         if r.status not in ("OK", "NO", "BAD"):
             ss.dead = True
+            if r.status == "WIREERR":
+                tail = bytes(ss.s.trailing()[:400])
+                if b"UID None" in tail:
+                    # a message reported without a UID: the UID <-> message binding itself is broken
+                    self.viol(["C07", "C03", "C02", "C06"], "message-reported-without-uid", f"{ss.name}: {shown!r:.80}: {tail[:160]!r}")
+                self.viol(["C07", "C06"], "malformed-response", f"{ss.name}: {shown!r:.80}: {ss.s.wire_error}; {tail[:120]!r}")
             self.viol(["C06"], "no-tagged-reply", f"{ss.name}: {shown!r:.80} -> {r.status}; log={[x[2][:160] for x in self.rig.log_records[-2:]]}")
         if r.latency is not None and r.latency >= 60:
             self.viol(["C06"], "latency", f"{ss.name}: {shown!r:.80} took {r.latency:.0f} virtual seconds")
